@@ -81,6 +81,7 @@ namespace PL
          FAM( 12, fam12 )
          FAM( 13, fam13 )
          FAM( 14, fam14 )
+         FAM( 16, fam16 )
 #undef FAM
       }
       fprintf( stderr, "FATAL: action family %d not compiled into this unit\n", c.fam );
